@@ -339,6 +339,23 @@ def run_verus_unit(name, tier, seed):
                 seen.add(f["label"])
                 f["found_by"] = "clause rotation round %d (clauses switched off: %s)" % (rnd + 1, sorted(disabled))
             fails = fails + added
+    # a failed obligation inside a function whose verified body contains a closure without contract is not decided by the proof:
+    # Verus knows nothing about the value such a closure returns (closure specs are never inferred), so the failure may be for
+    # want of a specification, not because of the code -> UNDECIDED for that function (the bounded witnesses then arbitrate)
+    opaque = {f["name"]: f.get("opaque_closures", 0) for f in u.functions}
+    try:
+        base = json.load(open(os.path.join(VERIF, "contracts", "closure_baseline.json"))).get(name, {})
+    except Exception:
+        base = {}
+    kept = []
+    for f in fails:
+        n = opaque.get(f.get("fn") or "", 0)
+        if n > base.get(f.get("fn") or "", 0):
+            # more un-annotated closures than on the pinned tree (tools/mkclosurebaseline.py): the edit introduced one
+            und.append("obligation %s failed in %s, whose edited body contains %d closure(s) without contract (%d on the pinned tree; opaque to the verifier): not decided by the proof" % (f["label"], f["fn"], n, base.get(f.get("fn") or "", 0)))
+        else:
+            kept.append(f)
+    fails = kept
     out["failures"] = fails
     out["undecided"] += und
     bd = function_breakdown(res["js"])
